@@ -102,12 +102,25 @@ func (e *StdEvents) Label(in ssa.Instruction) []string {
 	}
 	switch x := in.(type) {
 	case *ssa.Send:
-		return []string{"chan-send"}
+		return []string{"chan-send", "chan-send:" + describe(x.Chan)}
 	case *ssa.UnOp:
 		if x.Op.String() == "<-" {
-			return []string{"chan-recv"}
+			return []string{"chan-recv", "chan-recv:" + describe(x.X)}
 		}
 		return nil
+	case *ssa.Select:
+		var ls []string
+		for _, st := range x.States {
+			if st.Dir == types.SendOnly {
+				ls = append(ls, "select-send:"+describe(st.Chan))
+			} else {
+				ls = append(ls, "select-recv:"+describe(st.Chan))
+			}
+		}
+		if !x.Blocking {
+			ls = append(ls, "select-nonblocking")
+		}
+		return ls
 	case *ssa.Panic:
 		return []string{"panic"}
 	}
@@ -166,6 +179,9 @@ func (e *StdEvents) Label(in ssa.Instruction) []string {
 		}
 	case "(*io.PipeWriter).Close":
 		ls = append(ls, "pipe-close-clean")
+	}
+	if n == "io.Copy" && len(cc.Args) == 2 {
+		ls = append(ls, "copy-to:"+describe(cc.Args[0]))
 	}
 	if a := drainArg(in); a != nil {
 		ls = append(ls, "drain", "drain:"+typeShort(stripConv(a).Type()))
